@@ -100,6 +100,9 @@ def extra(tier, seed, rep):
     with mp.get_context("fork").Pool(16, maxtasksperchild=1) as pool:
         for case, ev in pool.imap_unordered(_cut_worker, sorted(longlist.CUTS, reverse=True), chunksize=1):
             rep.add_eval(case, ev)
+    for k in range(len(EVEX_LINES)):
+        rep.add_eval({"evex": k}, eval_evex({"evex": k}))
+    rep.exhaustive_parts.append(f"{len(EVEX_LINES)} real AVX-512 lines with an indexed, decorated memory operand: one wildcard item per operand finds them, one more finds nothing")
     for k in range(len(DEREF_ITEM_RULES)):
         rep.add_eval({"deref_item": k}, eval_deref_item({"deref_item": k}))
     rep.exhaustive_parts.append(f"$deref written where an instruction is expected: {len(DEREF_ITEM_RULES)} fixed rules")
@@ -151,9 +154,60 @@ def eval_deref_item(case):
     return ev
 
 
+EVEX_LINES = [  # (bytes, mnemonic, number of operands) - AVX-512 memory operands with an index and a decoration behind the parenthesis
+    ("62f17c492904c8", "vmovaps", 2),    # vmovaps %zmm0,(%rax,%rcx,8){%k1}
+    ("62f17c5858449810", "vaddps", 3),   # vaddps 0x40(%rax,%rbx,4){1to16},%zmm0,%zmm0
+    ("62f1fd4929449810", "vmovapd", 2),  # vmovapd %zmm0,0x400(%rax,%rbx,4){%k1}
+    ("62f27d4992048a", "vgatherdps", 2),  # vgatherdps (%rdx,%zmm1,4),%zmm0{%k1}
+    ("62f17cc9280cc8", "vmovaps", 2),    # vmovaps (%rax,%rcx,8),%zmm1{%k1}{z}
+    ("62f1f558590498", "vmulpd", 3),     # vmulpd (%rax,%rbx,4){1to8},%zmm1,%zmm0
+]
+
+
+def eval_evex(case):
+    """Real objdump lines whose memory operand has base, index, scale AND a mask / broadcast decoration: a rule with one wildcard item
+    per operand finds exactly the instructions of that mnemonic, each match one whole record under its own address; a rule with one
+    item more finds nothing (commas inside the parentheses never make an operand)."""
+    from vlib.elfw import disassemble_blob
+    from vlib.gen_rules import SHIPPED_MACROS
+    from vlib.refnorm import classify_line
+
+    ev = Eval()
+    sc = jasm_io.scratch()
+    rc, text, _ = disassemble_blob(sc.write("c07_evex.bin", b"".join(bytes.fromhex(b_) for b_, _m, _k in EVEX_LINES)))
+    addrs = {}
+    for ln in text.split("\n"):
+        c = classify_line(ln)
+        if c[0] == "inst":
+            addrs.setdefault(c[2].split(" ")[0], []).append(c[1])
+    _b, mn, k = EVEX_LINES[case["evex"]]
+    ev.subcases = 0
+    for items, want in ((k, addrs.get(mn, [])), (k + 1, [])):
+        doc = jasm_io.make_doc([{mn: ["@any"] * items}], True, None)
+        r = jasm_io.match(doc, text, mode="list", search="all", macros=[SHIPPED_MACROS])
+        ev.subcases += 1
+        if r[0] == "inconclusive":
+            ev.inconclusive += 1
+            continue
+        if r[0] != "ok":
+            ev.dev("exception", evex=case["evex"], items=items, error=list(r[1:]))
+            continue
+        got = [t.split("::")[0] for t in r[1]]
+        if got != want:
+            ev.dev("operand-items-vs-operands", evex=case["evex"], mnemonic=mn, operands=k, items=items, expected_addresses=want, observed=[t[:80] for t in r[1]])
+        elif any(not t.endswith("|") or t.count("|") != 1 or not t.startswith(a_ + "::" + mn + ",") for t, a_ in zip(r[1], want)):
+            ev.dev("match-not-aligned", evex=case["evex"], observed=[t[:80] for t in r[1]])
+    ev.tags = ["evex-decorated-memory-operand"]
+    ev.nontrivial = True
+    ev.keys = [("evex", case["evex"])]
+    return ev
+
+
 def evaluate(case):
     if "cut" in case:
         return eval_cut(case)
+    if "evex" in case:
+        return eval_evex(case)
     if "deref_item" in case:
         return eval_deref_item(case)
     ev = Eval()
